@@ -15,6 +15,9 @@ CONSTANTS
   FixRevertVerify = TRUE
   FixUnderflow = FALSE
   Fine = FALSE
+  EmptyDiff = {2, 4}
+  RootCheckedOnEmptyDiff = TRUE
+  VerdictPerAnswer = TRUE
 SPECIFICATION FairSpec
 PROPERTIES EventuallyConverges 
 CHECK_DEADLOCK TRUE
